@@ -567,6 +567,79 @@ def assign_task(mode):
     return mode, agg
 
 
+# ------------------------------------------------------------------ assign-after family
+# An in-place assignment written AFTER a component tag (in the same template) must not reach that component or its fill: both
+# are evaluated as at the position of the tag, although a nested component is rendered later (deferred).  Control: the same
+# assignment written BEFORE the tag is seen.
+AFTER_KINDS = {"none": "", "firstof_as": "{% firstof 'L' as z %}", "cycle_as": "{% cycle 'L' 'M' as z silent %}", "with_block": "{% with z='L' %}{% endwith %}"}
+AFTER_ROUTES = ("host", "page", "wrapped_host", "host_in_loop")
+
+
+def after_cases():
+    for kind in AFTER_KINDS:
+        for pos in ("after", "before"):
+            for route in AFTER_ROUTES:
+                for body in ("fill", "implicit"):
+                    yield {"kind": kind, "pos": pos, "route": route, "body": body}
+
+
+def after_run(c, mode):
+    from django.template import Context, Template
+
+    from django_components import Component
+    from django_components.component_registry import registry
+
+    body = "{% fill 's' %}[{{ z }}]{% endfill %}" if c["body"] == "fill" else "[{{ z }}]"
+    tag = "{% component 'af_c' %}" + body + "{% endcomponent %}"
+    assign = AFTER_KINDS[c["kind"]]
+    host_tpl = (tag + assign) if c["pos"] == "after" else (assign + tag)
+    seen = "L" if (c["pos"] == "before" and c["kind"] in ("firstof_as", "cycle_as")) else "h"
+    inner_sees = seen if mode == "django" else ""
+    one = "<%s|[%s]>" % (inner_sees, seen)
+    comps = {"af_c": ("<{{ z }}|{% slot 's' default / %}>", None), "af_host": (host_tpl, {"z": "h"}), "af_wrap": ("(W{% slot 'default' default / %})", None)}
+    for name, (tpl, data) in comps.items():
+        if name in registry.all():
+            registry.unregister(name)
+        attrs = {"template": tpl, "__module__": "verif_c03"}
+        if data is not None:
+            attrs["get_context_data"] = lambda self, _d=data, **kw: dict(_d)
+        registry.register(name, type("AF_" + name, (Component,), attrs))
+    if c["route"] == "host":
+        page, ctx, want = "{% component 'af_host' / %}", {}, one
+    elif c["route"] == "page":
+        page, ctx, want = host_tpl, {"z": "h"}, one
+    elif c["route"] == "wrapped_host":
+        page, ctx, want = "{% component 'af_wrap' %}{% component 'af_host' / %}{% endcomponent %}", {}, "(W" + one + ")"
+    else:
+        page, ctx, want = "{% for q in two %}{% component 'af_host' / %}{% endfor %}", {"two": [1, 2]}, one + one
+    try:
+        got = ("ok", strip_markers(Template(page).render(Context(ctx))))
+    except Exception as e:  # noqa
+        got = ("err", type(e).__name__, str(e)[:200])
+    boot.clear_render_registries()
+    for name in comps:
+        registry.unregister(name)
+    return page + "  with host template " + repr(host_tpl), want, got
+
+
+def after_task(mode):
+    boot.set_components_setting(context_behavior=mode)
+    agg = par.Agg()
+    for c in after_cases():
+        agg.states += 1
+        agg.transitions += 1
+        page, want, got = after_run(c, mode)
+        agg.validated += 1
+        if c["kind"] in ("firstof_as", "cycle_as"):
+            agg.nontrivial += 1
+        agg.expected[c["kind"] + "/" + c["pos"]] += 1
+        agg.observe((c["kind"], c["pos"], got))
+        if got != ("ok", want):
+            agg.fail(f"{mode}:assign-after:{c['kind']}:{c['pos']}:{c['route']}:{c['body']}",
+                     f"[{mode}] page {page}: expected {want!r}, got {got!r}", {"mode": mode, "family": "assign_after", "case": c, "page": page})
+    return mode, agg
+
+
 def run(ctx):
     ev = ctx.ev
     ev.rule = ("scoping family page -> outer -> inner(slot): all assignments of the names {x,y} to 8 binding roles x kwargs passing x only flags x body kinds x "
@@ -584,6 +657,12 @@ def run(ctx):
                            "with_between": 2, "slot_in_loop": 2, "nested_in_component": 2, "only": 2, "items_per_loop": len(LS_ITEMS)},
                     samples=[{"page": loopstate_build({"d_in": 2, "d_out": 0, "with_between": False, "slot_in_loop": False, "nested": False, "only": False})[0]}])
         ctx.fnd.merge_reports(sorted(agg.failures, key=lambda f: (len(f[2].get("page", "")), f[0])))
+    for mode, agg in par.run_tasks(after_task, ["django", "isolated"]):
+        ev.add_part(f"assign_after_{mode}", states=agg.states, transitions=agg.transitions, validated=agg.validated, nontrivial=agg.nontrivial,
+                    observed_distinct=len(agg.observed), expected=agg.expected,
+                    bound={"assignments": list(AFTER_KINDS), "position": ["after", "before"], "routes": list(AFTER_ROUTES), "bodies": ["fill", "implicit"]},
+                    samples=[{"host": "{% component 'af_c' %}{% fill 's' %}[{{ z }}]{% endfill %}{% endcomponent %}{% firstof 'L' as z %}", "expect": "<h|[h]>"}])
+        ctx.fnd.merge_reports(agg.failures)
     for mode, agg in par.run_tasks(assign_task, ["django", "isolated"]):
         ev.add_part(f"assign_between_{mode}", states=agg.states, transitions=agg.transitions, validated=agg.validated, nontrivial=agg.nontrivial,
                     observed_distinct=len(agg.observed), expected=agg.expected,
@@ -596,6 +675,11 @@ def run(ctx):
 def replay(ctx, case):
     mode = case["mode"]
     boot.set_components_setting(context_behavior=mode)
+    if case.get("family") == "assign_after":
+        page, want, got = after_run(case["case"], mode)
+        print("page:", page)
+        print("expected:", want, " got:", got)
+        return got == ("ok", want)
     if case.get("family") == "assign":
         tag, want, got = assign_run(case["case"], mode)
         print("page:    ", tag)
